@@ -136,20 +136,20 @@ Apply(fn, pos, kw, st) ==
   ELSE IF fn.t # "fn" \/ fn.kind # "func" THEN Unsupported(st)
   ELSE
   LET np   == Len(fn.ps)
-      args == IF Len(pos) >= np THEN pos ELSE pos \o [j \in 1..(np - Len(pos)) |-> NilV]
+      args == IF Len(pos) >= np THEN pos ELSE pos \o [j \in 1..(np - Len(pos)) |-> NilV]      \* parameters are padded with nil; the \-variables are made from pos, the arguments received
       pnames == {fn.ps[j] : j \in 1..np}
       knames == {fn.kps[j].k : j \in 1..Len(fn.kps)}
       PV(n)  == args[CHOOSE j \in 1..np : fn.ps[j] = n /\ \A m \in (j + 1)..np : fn.ps[m] # n]
       KV(n)  == IF HasKey(kw, n) THEN FirstOf(kw, n).v ELSE FirstOf(fn.kps, n).v
       vars == [n \in pnames \cup knames |-> IF n \in knames THEN KV(n) ELSE PV(n)]
-      avn  == {"\\" \o IntStr(j) : j \in 1..Len(args)} \cup {"\\0", "\\_"} \cup (IF Len(args) > 0 THEN {"\\"} ELSE {})
+      avn  == {"\\" \o IntStr(j) : j \in 1..Len(pos)} \cup {"\\0", "\\_"} \cup (IF Len(pos) > 0 THEN {"\\"} ELSE {})
               \cup {"\\" \o kw[j].k : j \in 1..Len(kw)}
       av   == [n \in avn |->
-                 IF n = "\\0" THEN ArrV(args)
+                 IF n = "\\0" THEN ArrV(pos)
                  ELSE IF n = "\\_" THEN ObjV(SortPairs(st.names, kw, 1))
-                 ELSE IF n = "\\" THEN args[1]
-                 ELSE IF \E j \in 1..Len(args) : n = "\\" \o IntStr(j)
-                      THEN args[CHOOSE j \in 1..Len(args) : n = "\\" \o IntStr(j)]
+                 ELSE IF n = "\\" THEN pos[1]
+                 ELSE IF \E j \in 1..Len(pos) : n = "\\" \o IntStr(j)
+                      THEN pos[CHOOSE j \in 1..Len(pos) : n = "\\" \o IntStr(j)]
                       ELSE FirstOf(kw, CHOOSE m \in {kw[j].k : j \in 1..Len(kw)} : n = "\\" \o m).v]
       nf   == Len(st.fr) + 1
       st2  == [st EXCEPT !.fr = Append(@, [vars |-> vars, av |-> av, par |-> fn.env]), !.fuel = @ - 1]
